@@ -80,6 +80,21 @@ NameRid(idx, name) ==
     LET S == {i \in 1..Len(idx) : idx[i].name = name} IN IF S = {} THEN 0 ELSE MaxOf(S)
 RidOk(idx, rid) == rid + 1 \in 1..Len(idx)
 
+\* ------------------------------------------------- closed-form huge family
+\* One record of `len` bases (len up to ~5*10^9, never materialised) whose i-th base (0-based) is
+\* "ACGTN"[i mod 5] (period 5: a position error of 2^32 bases or bytes is visible, 2^32 mod 5 = 1).
+\* TLC integers are 32 bit: a position travels as a pair <<hi, lo>> = hi * R + lo
+\* with 5 | R (R = 10^6 in the traces), so the slice starting there depends on lo only.
+\* IndexedFastaMC checks BigLemma: for small parameters this closed form is Expected() of the
+\* definition above.
+BigBases == <<65, 67, 71, 84, 78>>
+BigPeriod == 5
+BigBase(i) == BigBases[(i % BigPeriod) + 1]
+BigSeq(len) == [i \in 1..len |-> BigBase(i - 1)]
+BigExpected(lo, n) == [j \in 1..n |-> BigBase((lo + j - 1) % BigPeriod)]
+PairNorm(R, hi, lo) == <<hi + (lo \div R), lo % R>>
+PairLE(a, b) == a[1] < b[1] \/ (a[1] = b[1] /\ a[2] <= b[2])
+
 \* ================================================================= machine
 \* F = [data, idx, cap, icap]: (possibly truncated) file bytes, index rows, BufReader
 \*     capacity, iterator buffer bound
